@@ -351,6 +351,27 @@ def _unchecked_pops(ctx: Ctx, pm: ParserModel) -> None:
                             if not any(x is n or cfg.paths_avoiding(x, n, lambda y: y is d) for x in fs):
                                 ok = True
                 if not ok:
+                    # `for _ in range(k): stack.pop()` where k is the position of an entry EQUAL to the closing token,
+                    # computed by a search over the stack (next(<n for n, c in enumerate(reversed(stack), 1) if c == type>, 0))
+                    loop = mod.parent.get(st)
+                    while loop is not None and not isinstance(loop, (ast.For, ast.FunctionDef)):
+                        loop = mod.parent.get(loop)
+                    if isinstance(loop, ast.For) and isinstance(loop.iter, ast.Call) and isinstance(loop.iter.func, ast.Name) and loop.iter.func.id == "range" and len(loop.iter.args) == 1:
+                        k = loop.iter.args[0]
+                        kname = k.id if isinstance(k, ast.Name) else (k.left.id if isinstance(k, ast.BinOp) and isinstance(k.left, ast.Name) else None)
+                        if kname:
+                            defs = [x.value for x in walk_local(fn) if isinstance(x, ast.Assign) and any(isinstance(t, ast.Name) and t.id == kname for t in x.targets)]
+                            def is_search(v: ast.AST) -> bool:
+                                if not (isinstance(v, ast.Call) and isinstance(v.func, ast.Name) and v.func.id == "next" and v.args and isinstance(v.args[0], ast.GeneratorExp)):
+                                    return False
+                                g = v.args[0]
+                                gen = g.generators[0]
+                                over_stack = "stack" in norm(gen.iter) or any(isinstance(y, ast.Name) and any(isinstance(z, ast.Assign) and any(isinstance(t, ast.Name) and t.id == y.id for t in z.targets) and "stack" in norm(z.value) for z in walk_local(fn)) for y in ast.walk(gen.iter))
+                                eq = any(isinstance(c_, ast.Compare) and len(c_.ops) == 1 and isinstance(c_.ops[0], ast.Eq) for i_ in gen.ifs for c_ in ast.walk(i_))
+                                return over_stack and eq and len(g.generators) == 1
+                            if defs and all(is_search(v) for v in defs):
+                                ok = True
+                if not ok:
                     bad.append(short(st))
     ctx.ob("R6.4", "parser:CxxParser._consume_balanced_tokens|no expectation popped unchecked", n_pops >= 2 and not bad,
            msg=f"{bad} removes an expected closer from the stack without comparing it with the closing token: a mismatched bracket (e.g. ']]' closing a '[' and an enclosing '(') is silently accepted",
